@@ -32,6 +32,7 @@ pub enum BotGameState {
         username: String,
         text: String,
     },
+    #[serde(rename_all = "camelCase")]
     OpponentGone {
         gone: bool,
         claim_win_in_seconds: Option<u32>,
